@@ -194,6 +194,7 @@ def step (line : String) : String :=
       match apiExpected adv name (strOfHex ((a.drop 2).toString)) (strOfHex ((b.drop 2).toString)) with
       | some want =>
         let v := if want == impl then "ok"
+          else if impl.startsWith "hang" then s!"FAIL {name} never returned (wrote {(impl.drop 5).toString})" ++ (if want == "-" then " although the terminal did not advertise the report it queries" else "")
           else if want == "-" then s!"FAIL {name} wrote {impl} although the terminal did not advertise the report it queries"
           else s!"FAIL {name} must write exactly {want}, wrote {impl}"
         s!"{want}\t{impl}\t{v}"
